@@ -168,6 +168,21 @@ func init() {
 	models[mi+"SubRaw"] = func(e *Exec, a []Value) []Value {
 		return []Value{IntV{T: ISub(e.intNN(a[0]), BV2Int(asTerm(e, a[1])))}}
 	}
+	models[mi+"QuoRaw"] = func(e *Exec, a []Value) []Value {
+		y := toIntSigned(asTerm(e, a[1]))
+		if e.decideBool(Eq(y, IntI(0))) {
+			e.goPanicStr("division by zero")
+		}
+		return []Value{IntV{T: goQuo(e.intNN(a[0]), y)}}
+	}
+	models[mi+"ModRaw"] = func(e *Exec, a []Value) []Value {
+		y := toIntSigned(asTerm(e, a[1]))
+		if e.decideBool(Eq(y, IntI(0))) {
+			e.goPanicStr("division by zero")
+		}
+		x := e.intNN(a[0])
+		return []Value{IntV{T: ISub(x, IMul(goQuo(x, y), y))}}
+	}
 	models[mi+"MulRaw"] = func(e *Exec, a []Value) []Value {
 		return []Value{IntV{T: IMul(e.intNN(a[0]), BV2Int(asTerm(e, a[1])))}}
 	}
@@ -182,7 +197,11 @@ func init() {
 		return []Value{IntV{T: toIntSigned(asTerm(e, a[0]))}}
 	}
 	models["cosmossdk.io/math.NewIntFromUint64"] = func(e *Exec, a []Value) []Value {
-		return []Value{IntV{T: BV2Nat(asTerm(e, a[0]))}}
+		t := asTerm(e, a[0])
+		if t.S.K == SInt { // an integer-shadow quantity (non-negative by its uint64 type)
+			return []Value{IntV{T: t}}
+		}
+		return []Value{IntV{T: BV2Nat(t)}}
 	}
 	models["cosmossdk.io/math.ZeroInt"] = func(e *Exec, a []Value) []Value { return []Value{IntV{T: IntI(0)}} }
 	models["cosmossdk.io/math.OneInt"] = func(e *Exec, a []Value) []Value { return []Value{IntV{T: IntI(1)}} }
@@ -290,6 +309,23 @@ func init() {
 	}
 	models["cosmossdk.io/math.LegacyNewDecFromInt"] = func(e *Exec, a []Value) []Value {
 		return []Value{DecV{T: IMul(e.intNN(a[0]), e18)}}
+	}
+	models["cosmossdk.io/math.LegacyNewDecWithPrec"] = func(e *Exec, a []Value) []Value {
+		prec := asTerm(e, a[1])
+		if !prec.IsConst() {
+			e.unsupported("LegacyNewDecWithPrec with a symbolic precision")
+		}
+		var pv int64
+		if prec.S.K == SBV {
+			pv = prec.Signed().Int64()
+		} else {
+			pv = prec.N.Int64()
+		}
+		if pv < 0 || pv > 18 {
+			e.goPanicStr("too much precision")
+		}
+		scale := new(big.Int).Exp(big.NewInt(10), big.NewInt(18-pv), nil)
+		return []Value{DecV{T: IMul(toIntSigned(asTerm(e, a[0])), IntConst(scale))}}
 	}
 	models["cosmossdk.io/math.LegacyZeroDec"] = func(e *Exec, a []Value) []Value { return []Value{DecV{T: IntI(0)}} }
 	models["cosmossdk.io/math.LegacyOneDec"] = func(e *Exec, a []Value) []Value { return []Value{DecV{T: e18}} }
